@@ -11,6 +11,9 @@ R36b the notification chain is complete: TagCollection.add registers the collect
 R36c EngineMessageBuilder.collect_tag_updates de-duplicates by tag name, converts with as_readonly()
      at collection time (latest value), and the snapshot path must-call notify_all_tags, whose loop
      over _iter_all_tags() puts every tag.
+R36d every tag update taken off the queue is stored in the report: no path from the dequeue to the next dequeue or to the
+     return skips the keyed store (a filter between queue and report drops changes that carry no new timestamp, e.g. the
+     end of a simulation).
 Decides the structure that makes "changed => reported" hold for every program; thread interleaving
 between engine tick and the reporter is outside.
 """
@@ -205,6 +208,18 @@ def run(ctx) -> None:
     drain = [n for n in g.nodes if any(call_attr(c) in ("get_nowait", "get") and "tag_updates" in norm(c.func) for c in n.calls())]
     if not drain:
         raise AnchorError("collect_tag_updates: queue drain not found")
+    # R36d: every tag taken off the queue is put into the report (no path from the dequeue to the next dequeue / the return
+    # skips the keyed store): a filter between queue and report loses changes the engine has queued
+    ctx.rule("R36d", "every dequeued tag update reaches the report")
+    inst = "collect_tag_updates: every dequeued tag is stored in the report"
+    starts = [d for dn in drain for d, l in g.succ[dn.id] if l != "exc"]
+    skip = g.search(starts, lambda n: n.id in {d.id for d in drain} or n.id == g.exit.id,
+                    blocked=lambda n: any(n.id == k.id for k in keyed), follow_exc=False)
+    if keyed and skip is None:
+        ctx.ok("R36d", inst)
+    else:
+        ctx.fail("R36d", col, drain[0].ast, inst, "a tag update can be taken off the queue and dropped: the engine queued it because the "
+                 "tag's reported state changed (value, simulated flag or simulated value), so the aggregator keeps a stale state", skip)
     p = g.search([(tests[0].id, "T")], lambda n: n.id == drain[0].id, blocked=lambda n: node_calls(n, "notify_all_tags"))
     if p is None:
         ctx.ok("R36c", "collect_tag_updates(snapshot=True) must-call notify_all_tags before draining")
